@@ -24,6 +24,7 @@ true (un-reversed) gradient; validation steps leave every learnable term unchang
 from __future__ import annotations
 
 import types
+import zlib
 
 import torch
 import torchphysics as tp
@@ -35,6 +36,7 @@ from torchphysics.problem.spaces.points import Points
 from torchphysics.solver import OptimizerSetting, Solver
 
 import symtorch.ops_c07  # noqa: F401  (kernels reached by torch.optim only)
+from symtorch import term as T
 from symtorch.harness import Case
 from symtorch.symt import SymT, lift
 
@@ -270,12 +272,26 @@ SCHEDS = {
 }
 
 
+def _warm_state(env, learn, optimizer, opt, k):
+    """an ARBITRARY optimizer state after k steps (same symbols in both runs): momentum buffers / Adam moments symbolic,
+    second moments >= 0; one step from it is the inductive step of 'after any number of steps'"""
+    for i, (_, t, _) in enumerate(learn):
+        if opt.startswith("adam"):
+            ea = env.tensor("ea%d" % i, tuple(t.shape)).to(t.dtype)
+            eas = env.tensor("eas%d" % i, tuple(t.shape)).to(t.dtype)
+            for e in SH.elems(env, eas):
+                env.assume(env.L.ge(e, 0))
+            optimizer.state[t] = dict(step=torch.tensor(float(k)), exp_avg=ea, exp_avg_sq=eas)
+        elif OPTS[opt][1].get("momentum"):
+            optimizer.state[t] = dict(momentum_buffer=env.tensor("mb%d" % i, tuple(t.shape)).to(t.dtype))
+
+
 # --------------------------------------------------------------------------
 # run A: the real Solver, driven by the Lightning stub
 # --------------------------------------------------------------------------
 
 
-def _lightning_stub(solver, n_steps, validate, start_step, after_step, around_val):
+def _lightning_stub(solver, n_steps, validate, start_step, after_step, around_val, restore=None):
     """what pl.Trainer.fit does with a LightningModule under automatic optimisation (one optimizer, one epoch of n_steps
     batches; see META['assumptions'])"""
     solver.log = lambda *a, **k: None
@@ -284,6 +300,8 @@ def _lightning_stub(solver, n_steps, validate, start_step, after_step, around_va
         optimizer, sched_cfgs = cfg, []
     else:
         (optimizer,), sched_cfgs = cfg
+    if restore is not None:  # resuming: the optimizer state of a checkpoint is loaded before training starts
+        restore(optimizer)
     if validate:  # sanity check: validation before training starts
         around_val(lambda: _validate(solver), -1)
     solver.on_train_start()
@@ -313,7 +331,8 @@ def _validate(solver):
 # --------------------------------------------------------------------------
 
 
-def _reference_loop(env, wd, opt_cls, lr, opt_args, sched_cls, sched_args, freq, n_steps, start_step):
+def _reference_loop(env, wd, opt, lr, sched, freq, n_steps, start_step, warm):
+    (opt_cls, opt_args), (sched_cls, sched_args) = OPTS[opt], SCHEDS[sched]
     learn = _learnables(wd.train)
     # adaptive point weights ASCEND: plain product instead of the gradient-reversal layer, maximised by the optimizer
     for c in wd.train:
@@ -323,23 +342,26 @@ def _reference_loop(env, wd, opt_cls, lr, opt_args, sched_cls, sched_args, freq,
     groups = [dict(params=[t for _, t, asc in learn if not asc])]
     if any(asc for _, _, asc in learn):
         groups.append(dict(params=[t for _, t, asc in learn if asc], maximize=True))
-    opt = opt_cls(groups, lr=lr, **opt_args)
-    sched = sched_cls(opt, **sched_args) if sched_cls is not None else None
-    states, ostates, grads = [], [], []
+    optimizer = opt_cls(groups, lr=lr, **opt_args)
+    scheduler = sched_cls(optimizer, **sched_args) if sched_cls is not None else None
+    if warm:
+        _warm_state(env, learn, optimizer, opt, warm)
+    states, ostates, grads, lrs = [], [], [], []
     for k in range(n_steps):
         total = None
         for c, w in zip(wd.train, wd.weights):
             term = w * c(device="cpu", iteration=start_step + k)
             total = term if total is None else total + term
-        opt.zero_grad()
+        optimizer.zero_grad()
         total.backward()
         grads.append({path: _elems(env, t.grad) for path, t, asc in learn if asc})
-        opt.step()
-        if sched is not None and (k + 1) % freq == 0:
-            sched.step()
+        optimizer.step()
+        if scheduler is not None and (k + 1) % freq == 0:
+            scheduler.step()
         states.append(_snap(env, learn))
-        ostates.append(_snap_state(env, learn, opt))
-    return learn, states, ostates, grads
+        ostates.append(_snap_state(env, learn, optimizer))
+        lrs.append(sorted(set(g["lr"] for g in optimizer.param_groups)))
+    return learn, states, ostates, grads, lrs
 
 
 # --------------------------------------------------------------------------
@@ -347,9 +369,11 @@ def _reference_loop(env, wd, opt_cls, lr, opt_args, sched_cls, sched_args, freq,
 # --------------------------------------------------------------------------
 
 
-def train_case(train, opt, lr, steps, sched=None, freq=1, val=(), start=0, hidden=2, n=2, pyweights=False):
-    name = "train/%s/%s_lr%g/%s%s/steps%d%s%s/h%d%s" % (
-        "+".join(train), opt, lr, sched or "nosched", "_f%d" % freq if sched else "", steps,
+def train_case(train, opt, lr, steps, sched=None, freq=1, val=(), start=0, hidden=2, n=2, pyweights=False, warm=0):
+    """warm=k: both runs start from an arbitrary symbolic optimizer state 'after k steps' (step counter k)"""
+    start = warm or start
+    name = "%s/%s/%s_lr%g/%s%s/steps%d%s%s/h%d%s" % (
+        "induct" if warm else "train", "+".join(train), opt, lr, sched or "nosched", "_f%d" % freq if sched else "", steps,
         "/val=" + "+".join(val) if val else "", "/start%d" % start if start else "", hidden, "/pyweights" if pyweights else "")
     opt_cls, opt_args = OPTS[opt]
     sched_cls, sched_args = SCHEDS[sched]
@@ -359,6 +383,10 @@ def train_case(train, opt, lr, steps, sched=None, freq=1, val=(), start=0, hidde
         A = _world(env, train, val, hidden, n, pyweights)
         learnA = _learnables(A.train)
         learnV = [e for e in _learnables(A.val) if id(e[1]) not in {id(t) for _, t, _ in learnA}]
+        want = ([id(t) for t in A.model.parameters()] if set(train) - {"param"} else []) + (
+            [id(A.prm.as_tensor)] if {"pinn", "param"} & set(train) else []) + [
+            id(c.adaptive_layer.weight) for c in A.train if isinstance(c, C.AdaptiveWeightsCondition)]
+        walk_ok = sorted(want) == sorted(id(t) for _, t, _ in learnA)
         _record_calls(A)
         init = _snap(env, learnA)
         setting = OptimizerSetting(opt_cls, lr, optimizer_args=dict(opt_args), scheduler_class=sched_cls,
@@ -370,33 +398,34 @@ def train_case(train, opt, lr, steps, sched=None, freq=1, val=(), start=0, hidde
             statesA.append(_snap(env, learnA))
             ostatesA.append(_snap_state(env, learnA, optimizer))
             marks.append(len(A.calls))
-            lrsA.append([g["lr"] for g in optimizer.param_groups])
+            lrsA.append(sorted(set(g["lr"] for g in optimizer.param_groups)))
 
         def around_val(run, k):
             before = _snap(env, learnA + learnV)
             run()
-            val_pairs.append((k, before, _snap(env, learnA + learnV), torch.is_grad_enabled()))
+            val_pairs.append((k, before, _snap(env, learnA + learnV)))
             marks[-1] = len(A.calls)
 
-        optimizer, sched_cfgs = _lightning_stub(solver, steps, bool(val), start, after_step, around_val)
+        restore = (lambda o_: _warm_state(env, learnA, o_, opt, warm)) if warm else None
+        optimizer, sched_cfgs = _lightning_stub(solver, steps, bool(val), start, after_step, around_val, restore)
         in_opt = {id(p) for g in optimizer.param_groups for p in g["params"]}
         per_step = [[c for c in A.calls[marks[k]:marks[k + 1]] if c[0] == "train"] for k in range(steps)]
         # ---------------- run B: reference loop on the twin ----------------
         B = _world(env, train, (), hidden, n, pyweights)
-        learnB, statesB, ostatesB, gradsB = _reference_loop(env, B, opt_cls, lr, opt_args, sched_cls, sched_args, freq, steps, start)
+        learnB, statesB, ostatesB, gradsB, lrsB = _reference_loop(env, B, opt, lr, sched, freq, steps, start, warm)
         return dict(
             paths=[p for p, _, _ in learnA], paths_ref=[p for p, _, _ in learnB], ascend=[p for p, _, a in learnA if a],
             init=init, A=statesA, B=statesB, oA=ostatesA, oB=ostatesB, gradsB=gradsB,
             in_opt={p: id(t) in in_opt for p, t, _ in learnA}, per_step=per_step, n_train=len(train),
-            n_training_step=solver.n_training_step, val_pairs=val_pairs, val_only=[p for p, _, _ in learnV],
+            n_training_step=solver.n_training_step, walk_ok=walk_ok, lrsA=lrsA, lrsB=lrsB, val_pairs=val_pairs, val_only=[p for p, _, _ in learnV],
             n_val_calls=sum(1 for c in A.calls if c[0] == "val"), final_val=_snap(env, learnV),
         )
 
     def goals(o, L, env):
         # ---- structural facts first ----
         yield "walk_finds_same_learnables_in_twin", o["paths"] == o["paths_ref"]
-        yield "walk_finds_model_parameter_and_adaptive_weights", len(o["paths"]) >= 4 and (
-            ("adaptive" in train) == bool(o["ascend"]))
+        yield "walk_finds_exactly_model_parameter_and_adaptive_weights", o["walk_ok"]
+        yield "adaptive_weights_recognised", train.count("adaptive") == len(o["ascend"])
         for p in o["paths"]:
             yield "learnable_is_in_optimizer[%s]" % p, o["in_opt"][p]
             yield "learnable_is_updated[%s]" % p, any(not _same(x, y) for x, y in zip(o["init"][p], o["A"][0][p]))
@@ -407,11 +436,12 @@ def train_case(train, opt, lr, steps, sched=None, freq=1, val=(), start=0, hidde
                 yield "condition_called_once_per_step[step%d,cond%d]" % (k, i), len(mine) == 1
                 yield "iteration_is_step_index[step%d,cond%d]" % (k, i), all(c[2] == start + k for c in mine) and bool(mine)
         yield "step_counter_advanced_once_per_step", o["n_training_step"] == start + steps
+        for k in range(steps):  # the learning rate in force after step k+1 (concrete numbers): the scheduler's effect
+            yield "learning_rate_equals_reference[step%d]" % (k + 1), o["lrsA"][k] == o["lrsB"][k]
         if val:
             yield "validation_ran", o["n_val_calls"] == (steps + 1) * len(val)
         # ---- validation changes nothing (step 0 = Lightning's sanity validation before training) ----
-        for k, before, after, grad_mode in o["val_pairs"]:
-            yield "grad_mode_restored_after_validation[after_step%d]" % (k + 1), grad_mode is True
+        for k, before, after in o["val_pairs"]:
             for p in sorted(before):
                 for j, (x, y) in enumerate(zip(before[p], after[p])):
                     yield "validation_changes_no_learnable[after_step%d][%s][%d]" % (k + 1, p, j), _eq(L, x, y)
@@ -433,16 +463,21 @@ def train_case(train, opt, lr, steps, sched=None, freq=1, val=(), start=0, hidde
                     for j, (x, y) in enumerate(zip(sa[key], sb[key])):
                         yield "optimizer_state_equals_reference[step%d][%s][%s][%d]" % (k + 1, p, key, j), _eq(L, x, y)
         # ---- adaptive weights ascend: (new - old) * d(loss)/d(weight) >= 0 with the true gradient of the reference ----
+        # (implied at every step for plain SGD, at the first step from a cold start for momentum / Adam; not with weight decay)
+        ascent_steps = 0 if "weight_decay" in opt_args or (warm and opt != "sgd") else (steps if opt == "sgd" else 1)
         for p in o["ascend"]:
-            for k in range(steps if opt == "sgd" else 1):
+            for k in range(ascent_steps):
                 old = o["init"][p] if k == 0 else o["A"][k - 1][p]
                 for j, g in enumerate(o["gradsB"][k][p]):
                     yield "adaptive_weight_ascends[step%d][%s][%d]" % (k + 1, p, j), L.ge((o["A"][k][p][j] - old[j]) * g, 0)
 
-    return Case(name, body, goals, family="train/" + opt + ("/" + sched if sched else "") + ("/val" if val else ""),
+    return Case(name, body, goals, family=("induct/" if warm else "train/") + opt + ("/" + sched if sched else "") + ("/val" if val else ""),
                 params=dict(train=train, opt=opt, lr=lr, steps=steps, sched=sched, freq=freq, val=val, start=start, hidden=hidden,
-                            n=n, pyweights=pyweights),
-                check_obligations=not opt.startswith("adam"))
+                            n=n, pyweights=pyweights, warm=warm),
+                check_obligations=not opt.startswith("adam") or (steps == 1 and not warm),
+                # Adam: the goals are syntactic identities or small; short solver slices keep the reachability twin (which needs a
+                # model of the nested sqrt definitions) cheap - its fallback (relaxed model, then fixed inputs) is what succeeds
+                timeout_ms=8000 if opt.startswith("adam") else None)
 
 
 def _same(x, y):
@@ -450,16 +485,29 @@ def _same(x, y):
 
 
 def _eq(L, x, y):
-    """x == y; terms that are not syntactically identical are first brought to a canonical sum-of-monomials form
-    (bounded effort) so that the solver is handed `0 == 0` or a small residual polynomial"""
+    """x == y.  Terms that are not syntactically identical are (1) brought to a canonical sum-of-monomials form with bounded
+    effort, so that the solver is handed `0 == 0` or a small residual polynomial; (2) if that does not settle it, evaluated at two
+    fixed rational points: when they differ there, the goal handed over is the equality AT THAT POINT (weaker, and already known
+    to be false), so that the solver answers with this counterexample at once instead of searching the zero set of a polynomial
+    of high degree; otherwise the full equality goes to the solver."""
     if not L.symbolic or not (isinstance(x, z3.ExprRef) and isinstance(y, z3.ExprRef)) or x.eq(y):
         return L.eq(x, y)
     try:
         d = z3.TryFor(z3.With("simplify", som=True), 4000)(x - y == 0)
-        if len(d) == 1:
-            return d[0].as_expr()
+        if len(d) == 1 and z3.is_true(d[0].as_expr() if hasattr(d[0], "as_expr") else d[0]):
+            return L.eq(x, x)
     except z3.Z3Exception:
         pass
+    fv = T.free_vars(x - y)
+    if fv and not any("!" in n for n in fv):  # (defined symbols - sqrt, quotients - cannot be evaluated by substitution)
+        for salt in (b"a", b"b"):
+            point = [(v, z3.RealVal("%d/4" % (zlib.crc32(salt + n.encode()) % 23 - 11))) for n, v in sorted(fv.items()) if z3.is_real(v)]
+            try:  # bounded effort: numbers grow doubly exponentially with the number of steps
+                r = z3.TryFor(z3.Tactic("simplify"), 2000)(z3.substitute(x - y, *point) == 0)
+            except z3.Z3Exception:
+                break
+            if len(r) == 1 and len(r[0]) == 1 and z3.is_false(r[0][0]):
+                return z3.Implies(z3.And([v == c for v, c in point]), x == y)
     return L.eq(x, y)
 
 
@@ -476,8 +524,58 @@ def cases(tier):
     cs.append(train_case(("pinn", "iter"), "sgd", 0.5, 2, hidden=1, start=5))
     cs.append(train_case(("pinn", "mean"), "adam", 0.5, 1, hidden=1))
     cs.append(train_case(("pinn", "mean"), "sgd", 0.5, 2, sched="steplr", hidden=1))
+    cs.append(train_case(("pinn", "mean"), "sgd_m", 0.5, 1, hidden=1, warm=3))
     if th:
-        pass
+        P3 = ("pinn", "mean", "adaptive")
+        # 3 conditions incl. adaptive weights, 3 steps, SGD variants
+        for o_, lr_ in (("sgd", 0.5), ("sgd_m", 0.125), ("sgd_nesterov_wd", 0.5)):
+            cs.append(train_case(P3, o_, lr_, 3, hidden=1))
+        cs.append(train_case(P3, "sgd_m", 0.5, 3, hidden=2))
+        # schedulers x frequency (3 steps: frequency 2 and step_size 2 act before the last step)
+        for sc_, f_ in (("steplr", 1), ("steplr", 2), ("steplr2", 1), ("explr", 1), ("explr", 2)):
+            cs.append(train_case(P3, "sgd_m", 0.5, 3, sched=sc_, freq=f_, hidden=1))
+        # validation conditions on (sharing model and Parameter; data iterator; a validation-only Parameter)
+        for o_, sc_ in (("sgd_m", None), ("sgd", "explr")):
+            cs.append(train_case(P3, o_, 0.5, 3, sched=sc_, val=("pinn", "data"), hidden=1))
+            cs.append(train_case(("pinn", "data", "adaptive"), o_, 0.5, 3, sched=sc_, val=("data", "pinn_q", "adaptive"), hidden=1))
+        # non-zero starting step counter, step-dependent loss, four conditions, Python-float weights
+        cs.append(train_case(("pinn", "iter", "adaptive"), "sgd_m", 0.5, 3, start=5, hidden=1))
+        cs.append(train_case(("iter", "pinn", "param", "adaptive"), "sgd", 0.5, 3, sched="steplr", freq=2, start=5, val=("pinn",), hidden=1))
+        cs.append(train_case(("pinn", "param", "mean", "data"), "sgd_nesterov_wd", 0.125, 3, hidden=1, pyweights=True))
+        # every ordered pair of condition types (gradient accumulation order, shared model / Parameter), alternating settings
+        KINDS = ("pinn", "mean", "data", "adaptive", "param", "iter")
+        k_ = 0
+        for a_ in KINDS:
+            for b_ in KINDS:
+                if a_ != b_:
+                    o_, lr_ = (("sgd", 0.5), ("sgd_m", 0.125), ("sgd_m", 0.5), ("sgd_nesterov_wd", 0.125))[k_ % 4]
+                    cs.append(train_case((a_, b_), o_, lr_, 3, sched=(None, "steplr", "explr")[k_ % 3], freq=1 + k_ % 2, hidden=1,
+                                         start=(0, 5)[k_ % 2]))
+                    k_ += 1
+        cs.append(train_case(("pinn", "pinn", "mean"), "sgd_m", 0.5, 3, hidden=1))
+        cs.append(train_case(("pinn", "data", "adaptive"), "sgd", 0.125, 3, hidden=2))
+        cs.append(train_case(("mean", "adaptive", "pinn"), "sgd_nesterov_wd", 0.5, 3, hidden=2, val=("pinn_q",)))
+        cs.append(train_case(("adaptive", "pinn"), "sgd_m", 0.5, 3, hidden=1, n=3))
+        # Adam.  Every step introduces sqrt / quotient symbols defined by the previous ones; for the reachability twin z3 has
+        # to exhibit a model of these nested definitions, which it does reliably only for: one step from a cold start, one
+        # step from an arbitrary state (inductive cases below), two steps on the 2-condition problem, three steps when a
+        # single cell is learnable.  Base case + inductive step cover any number of steps.
+        for o_, lr_ in (("adam", 0.5), ("adam_default", 0.125)):
+            cs.append(train_case(P3, o_, lr_, 1, hidden=1))
+        cs.append(train_case(("adaptive", "data", "pinn"), "adam", 0.125, 1, hidden=1))
+        cs.append(train_case(P3, "adam", 0.5, 1, hidden=2, val=("pinn", "data")))
+        cs.append(train_case(("iter", "pinn", "param", "adaptive"), "adam", 0.5, 1, start=5, val=("data", "pinn_q", "adaptive"), hidden=1))
+        for sc_ in (None, "steplr", "explr"):
+            cs.append(train_case(("pinn", "mean"), "adam", 0.5, 2, sched=sc_, hidden=1))
+        for sc_, f_ in (("steplr", 2), ("explr", 2), ("steplr2", 1)):
+            cs.append(train_case(("param",), "adam", 0.5, 3, sched=sc_, freq=f_, hidden=1))
+        # inductive step: from an ARBITRARY optimizer state 'after k steps' (symbolic momentum buffers / Adam moments)
+        for o_ in ("sgd_m", "sgd_nesterov_wd", "adam", "adam_default"):
+            cs.append(train_case(P3, o_, 0.5, 1, hidden=1, warm=2))
+        cs.append(train_case(P3, "adam", 0.125, 1, hidden=1, warm=7))
+        cs.append(train_case(("adaptive", "data", "pinn"), "adam", 0.125, 1, hidden=1, warm=2))
+        cs.append(train_case(("iter", "pinn", "adaptive"), "adam", 0.5, 1, val=("pinn", "data"), hidden=1, warm=2))
+        cs.append(train_case(("pinn", "data", "adaptive"), "sgd_m", 0.5, 2, sched="steplr", val=("data",), hidden=2, warm=4))
     seen, out = set(), []
     for c in cs:
         if c.name not in seen:
